@@ -11,6 +11,7 @@ call blocked until its timeout (the kernel holds its own reference).
 from __future__ import annotations
 
 import errno
+import struct
 import socket as _rsocket
 import weakref
 
@@ -62,6 +63,7 @@ class SimSocket:
         self.wr_shutdown = False
         self.total_sent = 0
         self.total_received = 0
+        self.linger0 = False
         self.tx_times = []  # (cumulative bytes sent, virtual time) per send call
         net._fileno += 1
         self._fd = net._fileno
@@ -75,6 +77,10 @@ class SimSocket:
 
     def setsockopt(self, *a):
         self._check()
+        # SO_LINGER with l_onoff=1, l_linger=0: close() aborts the connection (RST) and discards what the peer has not read
+        if len(a) == 3 and a[0] == _rsocket.SOL_SOCKET and a[1] == _rsocket.SO_LINGER and isinstance(a[2], (bytes, bytearray)) and len(a[2]) >= 8:
+            onoff, secs = struct.unpack("ii", bytes(a[2][:8]))
+            self.linger0 = bool(onoff) and secs == 0
 
     def getsockopt(self, *a):
         self._check()
@@ -217,7 +223,7 @@ class SimSocket:
                     s.peer.reset = True
         if self.peer is not None:
             self.peer.eof = True
-            if self.rx:  # unread data at close -> RST towards the peer
+            if self.rx or self.linger0:  # unread data at close, or an abortive close (SO_LINGER 0) -> RST towards the peer
                 self.peer.reset = True
         self.net.activity()
 
